@@ -77,6 +77,9 @@ func StdOps(conf *cfg.Config, r *rand.Rand, rich bool) []probe.Op {
 	}
 	sort.Strings(ts)
 	for _, t := range ts {
+		if len(names) > 0 {
+			ops = append(ops, probe.Op{Op: "istagged", Name: names[r.Intn(len(names))], Val: t})
+		}
 		ops = append(ops, probe.Op{Op: "tagged", Name: t})
 		if rich {
 			ops = append(ops, probe.Op{Op: "taggedctx", Name: t, Ctx: 1})
